@@ -12,6 +12,7 @@ Operands:
 
 # InstOptions (asmjit/core/inst.h) - public API constants the driver passes through
 OPT_SHORT, OPT_LONG = 0x10, 0x20
+OPT_TAKEN, OPT_NOTTAKEN = 0x40, 0x80
 OPT_MODMR, OPT_MODRM = 0x100, 0x200
 OPT_VEX3, OPT_VEX, OPT_EVEX = 0x400, 0x800, 0x1000
 OPT_LOCK, OPT_REP, OPT_REPNE = 0x2000, 0x4000, 0x8000
@@ -20,6 +21,9 @@ OPT_ER, OPT_SAE = 0x40000, 0x80000
 OPT_RN, OPT_RD, OPT_RU, OPT_RZ = 0, 0x200000, 0x400000, 0x600000
 OPT_ZMASK = 0x800000
 OPT_REX = 0x40000000
+# EncodingOptions (asmjit/core/emitter.h): per-case, passed to the driver as a trailing `eo=<hex>` token
+EO_OPTSIZE, EO_PREDICTED_JUMPS = 0x1, 0x10
+SIDE_STREAM = 0x5EEDA11CE0C01B11   # the extended dimensions draw from rng.s ^ SIDE_STREAM: the main stream is untouched
 
 FIXED_REGS = {}
 for i, n in enumerate(["al", "cl", "dl", "bl"]):
@@ -99,6 +103,12 @@ class Gen:
         self.deep = deep
         self.next_id = 0
         self.canonical = False   # low registers and plain [base] memory operands only (C13's representative instantiation)
+        # extended dimensions (C01/C13 round 11): implicit operands omitted, ModMR/ModRM on every prefix class, long form on
+        # non-branches, branch hints / size optimisation (EncodingOptions), address-size x index-type matrix, disp8*N
+        # boundaries under every addressing style. Off by default so that every other user of this generator (C08, C12,
+        # C14, C20) keeps exactly the case set it had; all picks come from a side stream.
+        self.ext = False
+        self.ext_fraction = 1.0  # --scale < 1: keep this fraction of the extended variants
 
     # -- operand instantiation ------------------------------------------------
     def pick_reg(self, cls, mode, avoid_hi=False, low_only=False):
@@ -144,7 +154,10 @@ class Gen:
             m["index"] = self.pick_reg(vreg, mode)
             m["shift"] = rng.below(4)
             if style not in ("isd", "abs"):
-                m["base"] = self.pick_reg(areg, mode)
+                breg = areg
+                if self.ext and style in ("a32", "a16"):
+                    breg = "gp32" if mode == 64 else "gp16"   # other address size with a vector index (same number of draws)
+                m["base"] = self.pick_reg(breg, mode)
             m["disp"] = rng.choice(DISPS[:10]) if style != "b" else 0
             return m
         if mem == "tmem" and style in ("rip", "abs", "a32", "a16", "isd"):
@@ -317,9 +330,11 @@ class Gen:
             ops = fixed
         return ops
 
-    def new_case(self, form, mode, ops, variant, opts=0, extra=None):
+    def new_case(self, form, mode, ops, variant, opts=0, extra=None, eopts=0):
         c = dict(id=self.next_id, arch="x64" if mode == 64 else "x86", form=form["_idx"], name=form["name"],
                  opts=opts, extra=extra, ops=ops, variant=variant)
+        if eopts:
+            c["eopts"] = eopts
         self.next_id += 1
         return c
 
@@ -327,6 +342,7 @@ class Gen:
     def cases_for_form(self, form, mode, budget):
         """a list of cases for one form in one mode"""
         rng = self.rng
+        side = type(rng)(rng.s ^ SIDE_STREAM ^ (form["_idx"] * 2 + (mode == 64)))
         out = []
         opers = form["operands"]
         rm_idx = [i for i, o in enumerate(opers) if o["reg"] and o["mem"]]
@@ -538,6 +554,226 @@ class Gen:
                         break
         for name, ops, opts, extra in chosen:
             out.append(self.new_case(form, mode, ops, name, opts, extra))
+        if self.ext:
+            for v in self.ext_variants(form, mode, base, side):
+                out.append(self.new_case(form, mode, v[1], v[0], v[2], v[3], v[4] if len(v) > 4 else 0))
+        return out
+
+
+    # -- extended dimensions (side stream) --------------------------------------
+    def _asz_cells(self, mode, vsib):
+        """(label, base class | None, index class | None | 'vec'): the address-size x index-type matrix of one mode.
+        Cells that mix two address sizes, or give a vector index a 16-bit base, cannot be encoded: they must be refused
+        (an accepted one is judged like every other case)."""
+        if vsib:
+            return ([("b32v", "gp32", "vec"), ("nov", None, "vec"), ("b64v", "gp64", "vec")] if mode == 64 else
+                    [("b16v", "gp16", "vec"), ("nov", None, "vec"), ("b32v", "gp32", "vec")])
+        if mode == 64:
+            return [("b32", "gp32", None), ("i32", None, "gp32"), ("b32i32", "gp32", "gp32"), ("b32i64", "gp32", "gp64"),
+                    ("b64i32", "gp64", "gp32"), ("i64", None, "gp64")]
+        return [("b16", "gp16", None), ("i16", None, "gp16"), ("b16i16", "gp16", "gp16"), ("b16i32", "gp16", "gp32"),
+                ("b32i16", "gp32", "gp16"), ("i32", None, "gp32")]
+
+    def _asz_mem(self, m, o, mode, cell):
+        rng = self.rng
+        label, bcls, icls = cell
+        m = dict(m)
+        m["seg"] = 0
+        m["addr"] = "default"
+        m["base"] = m["index"] = None
+        m["shift"] = 0
+        if bcls == "gp16":
+            m["base"] = ("gp16", rng.choice([3, 5, 6, 7]))
+        elif bcls:
+            m["base"] = self.pick_reg(bcls, mode)
+        if icls == "vec":
+            m["index"] = self.pick_reg(o["vsibReg"], mode)
+            m["shift"] = rng.below(4)
+        elif icls == "gp16":
+            m["index"] = ("gp16", rng.choice([6, 7]))
+            if m["base"] and m["base"][0] == "gp16":
+                m["base"] = ("gp16", rng.choice([3, 5]))
+        elif icls:
+            idx = self.pick_reg(icls, mode)
+            while idx[1] == 4:
+                idx = self.pick_reg(icls, mode)
+            m["index"] = idx
+            m["shift"] = rng.below(4) if icls != "gp16" else 0
+        m["disp"] = rng.choice([0, 8, -8, 127, -128, 128, 0x1000, -0x1000])
+        return m
+
+    def ext_variants(self, form, mode, base, side):
+        """Variants of the extended dimensions: (name, ops, opts, extra, eopts). They are appended after the budgeted
+        selection (never compete with it) and every random pick comes from `side`."""
+        main = self.rng
+        self.rng = side
+        try:
+            out = self._ext_variants(form, mode, base, side)
+        finally:
+            self.rng = main
+        if self.ext_fraction < 1.0:
+            out = [v for v in out if side.below(1000) < int(self.ext_fraction * 1000)]
+        return out
+
+    def _ext_variants(self, form, mode, base, side):
+        out = []
+        deep = self.deep
+        opers = form["operands"]
+        rm_idx = [i for i, o in enumerate(opers) if o["reg"] and o["mem"]]
+        mem_idx = [i for i, o in enumerate(opers) if o["mem"]]
+        has_rel = any(o["rel"] for o in opers)
+        # (1) the call shapes of the typed API: implicit operands omitted
+        imp = form.get("implicit") or 0
+        if imp:
+            for want_mem in ([False, True] if rm_idx else [None]):
+                ops = self.instantiate(form, mode, want_mem)
+                if ops:
+                    kept = [op for i, op in enumerate(ops) if not (imp >> i) & 1]
+                    out.append(("impomit-mem" if want_mem else "impomit", kept, 0, None, 0))
+                    pf = form.get("prefixes") or {}
+                    if want_mem is not False and (pf.get("lock") or pf.get("ilock")) and any(op[0] == "M" for op in kept):
+                        out.append(("impomit-lock", kept, OPT_LOCK, None, 0))
+        # (2) ModMR / ModRM on every form with two register operands, whatever its prefix class
+        regonly = self.instantiate(form, mode, False)
+        nregs = sum(1 for op in (regonly or []) if op[0] == "R")
+        budgeted = form["prefix"] == "" and form["encoding"] in ("MR", "RM") and mem_idx and rm_idx
+        if regonly and nregs >= 2 and not any(op[0] == "M" for op in regonly) and not budgeted:
+            which = [("modmr", OPT_MODMR), ("modrm", OPT_MODRM)]
+            if not deep:
+                which = [side.choice(which)]
+            for name, bit in which:
+                out.append((name, list(regonly), bit, None, 0))
+            if deep and form.get("kmask"):
+                out.append(("modmr-k", list(regonly), OPT_MODMR, ("k", side.range(1, 7)), 0))
+        # (3) long form on non-branch instructions: immediates that fit a shorter field, accumulator short forms
+        imm_idx = [i for i, o in enumerate(opers) if (o["imm"] or o["data"] == "1") and not o["rel"]]
+        if imm_idx and not has_rel and form["prefix"] == "":
+            small = [0, 1, -1, 127, -128, 2, 100]
+            for want_mem in ([False, True] if rm_idx else [None]):
+                for rep in range(4 if deep else 1):
+                    ops = self.instantiate(form, mode, want_mem)
+                    if not ops:
+                        continue
+                    for i in imm_idx:
+                        if opers[i]["data"] != "1":
+                            ok = [v for v in small if v in self.imm_values(opers[i]) or (opers[i]["imm"] >= 8 and 0 <= v < 128)]
+                            ops[i] = ("I", side.choice(ok or [0]))
+                    out.append(("long-imm" + ("-mem" if want_mem else ""), ops, OPT_LONG, None, 0))
+        gp_free = [i for i, o in enumerate(opers) if o["reg"] and o["reg"] not in FIXED_REGS and CLASS_OF.get(o["regType"]) in ("gp8", "gp16", "gp32", "gp64")
+                   and not (o.get("regIndexRel") or 0)]
+        if gp_free and form["prefix"] == "" and regonly and not has_rel:
+            for i in (gp_free if deep else [side.choice(gp_free)]):
+                if regonly[i][0] != "R":
+                    continue
+                for opt, nm in ((OPT_LONG, "long-acc"), (0, "acc")):
+                    ops = list(regonly)
+                    ops[i] = ("R", "gp8lo" if ops[i][1] == "gp8hi" else ops[i][1], 0)
+                    out.append((nm, ops, opt, None, 0))
+        # (4) EncodingOptions: branch hints on every relative form (only jcc takes them), size optimisation
+        if has_rel:
+            for nm, bit in (("taken", OPT_TAKEN), ("nottaken", OPT_NOTTAKEN)):
+                out.append((nm, list(base), bit, None, EO_PREDICTED_JUMPS))
+            out.append(("taken-off", list(base), side.choice([OPT_TAKEN, OPT_NOTTAKEN]), None, 0))
+            out.append(("taken-short", list(base), side.choice([OPT_TAKEN, OPT_NOTTAKEN]) | OPT_SHORT, None, EO_PREDICTED_JUMPS))
+            out.append(("taken-long", list(base), side.choice([OPT_TAKEN, OPT_NOTTAKEN]) | OPT_LONG, None, EO_PREDICTED_JUMPS))
+        if mode == 64 and form["prefix"] == "" and regonly and any(o["regType"] == "r64" and o["reg"] not in FIXED_REGS for o in opers):
+            real_imm = [i for i in imm_idx if opers[i]["data"] != "1"]
+            if real_imm:
+                free64 = [j for j, o in enumerate(opers) if o["regType"] == "r64" and o["reg"] and o["reg"] not in FIXED_REGS and not (o.get("regIndexRel") or 0)]
+                for i in real_imm:
+                    vals = self.imm_values(opers[i])
+                    probe = [v for v in (1, 0x7FFFFFFF, 0x80000000, 0xFFFFFFFF, -1, 0x12345678) if v in vals] + [side.choice(vals)]
+                    for v in (vals if deep else probe):
+                        for hi in (False, True):
+                            for want_mem in ([False, True] if rm_idx and deep else [False]):
+                                ops = self.instantiate(form, mode, want_mem)
+                                if not ops:
+                                    continue
+                                ops[i] = ("I", v)
+                                for j in free64:
+                                    if ops[j][0] == "R":
+                                        ops[j] = ("R", "gp64", side.choice([8, 9, 10, 11, 12, 13, 14, 15] if hi else [0, 1, 2, 3, 5, 6, 7]))
+                                out.append(("optsize", ops, 0, None, EO_OPTSIZE))
+                    ops = self.instantiate(form, mode, False)
+                    if ops:
+                        ops[i] = ("I", side.choice(probe))
+                        out.append(("optsize-long", ops, OPT_LONG, None, EO_OPTSIZE))
+            else:
+                out.append(("optsize-noimm", list(regonly), 0, None, EO_OPTSIZE))
+        # (5) address size x index type: every explicit memory operand under the other address size, with and without base,
+        #     with a scalar or a vector index; mixed sizes must be refused
+        expl = [i for i in mem_idx if not opers[i]["mem"].startswith("moff") and
+                not (opers[i].get("memSegment") in ("es", "ds") and ((form["opcode"]["mod"] == "" and form["encoding"] in ("OP", "NONE", "RM", "MR")) or
+                                                                     form["name"].startswith(("maskmov", "vmaskmov"))))]
+        if expl:
+            vsib = any(opers[i].get("vsibReg") for i in expl)
+            cells = self._asz_cells(mode, vsib)
+            if not deep and not vsib:
+                cells = [side.choice(cells)]
+            for cell in cells:
+                for rep in range(2 if deep else 1):
+                    ops = self.instantiate(form, mode, True, "b")
+                    if not ops:
+                        continue
+                    for i in expl:
+                        if ops[i][0] == "M":
+                            ops[i] = ("M", self._asz_mem(ops[i][1], opers[i], mode, cell))
+                    ex = ("k", side.range(1, 7)) if form.get("kmask") and (vsib or side.chance(1, 2)) else None
+                    out.append(("mem-asz-" + cell[0], ops, 0, ex, 0))
+            # a broadcast on an operand that has none must be refused (no encoding can express it)
+            if not form.get("broadcast") and (deep or side.chance(1, 2)):
+                ops = self.instantiate(form, mode, True, "b")
+                if ops:
+                    for i in expl:
+                        if ops[i][0] == "M" and not opers[i].get("vsibReg"):
+                            ops[i] = ("M", dict(ops[i][1], bcst=side.range(1, 4), size=side.choice([0, 4, 8])))
+                            out.append(("bcst-illegal", ops, 0, None, 0))
+                            break
+        # (6) disp8*N boundaries under every addressing style (the budgeted ones only use [base+disp])
+        if mem_idx and form["prefix"] == "EVEX":
+            vsib = any(o.get("vsibReg") for o in opers)
+            styles = ["bd8"] if vsib else ["bis", "bsp", "bbp", "seg", "a32" if mode == 64 else "a16"]
+            if vsib:
+                styles += ["a32"] if mode == 64 else []
+            picks = [(st, n, k) for st in styles for n in (1, 2, 4, 8, 16, 32, 64) for k in (127, 128, -128, -129)]
+            if deep:
+                side.shuffle(picks)
+                picks = picks[:len(picks) // 2]
+            else:
+                picks = [side.choice(picks) for _ in range(3 if vsib else 2)]
+            for st, n, k in picks:
+                ops = self.instantiate(form, mode, True, st)
+                if not ops:
+                    continue
+                for i, op in enumerate(ops):
+                    if op[0] == "M":
+                        m = dict(op[1])
+                        m["disp"] = n * k
+                        if st == "a16" and not -0x8000 <= m["disp"] <= 0x7FFF:
+                            m["disp"] = k
+                        ops[i] = ("M", m)
+                ex = ("k", side.range(1, 7)) if form.get("kmask") and (vsib or side.chance(1, 3)) else None
+                out.append(("mem-disp8xN-" + st, ops, 0, ex, 0))
+            # broadcast operands: N is the element size
+            if form.get("broadcast"):
+                for i, o in enumerate(opers):
+                    if (o.get("bcstSize") or -1) > 0 and o["mem"]:
+                        n = o["memSize"] // o["bcstSize"]
+                        code = {2: 1, 4: 2, 8: 3, 16: 4, 32: 5, 64: 6}.get(n)
+                        if code is None:
+                            continue
+                        for st in (styles if deep else [side.choice(styles)]):
+                            ops = self.instantiate(form, mode, True, st)
+                            if not ops or ops[i][0] != "M":
+                                continue
+                            m = dict(ops[i][1])
+                            m["bcst"] = code
+                            m["size"] = o["bcstSize"] // 8
+                            m["disp"] = side.choice([127, 128, -128, -129]) * side.choice([o["bcstSize"] // 8, o["memSize"] // 8])
+                            if st == "a16" and not -0x8000 <= m["disp"] <= 0x7FFF:
+                                m["disp"] = 127 * (o["bcstSize"] // 8)
+                            ops[i] = ("M", m)
+                            out.append(("bcst-disp8xN-" + st, ops, 0, None, 0))
         return out
 
 
@@ -562,4 +798,5 @@ def op_token(op):
 
 def case_line(c):
     ex = "-" if not c["extra"] else "%s:%d" % c["extra"]
-    return "%d %s %s %x %s %d %s" % (c["id"], c["arch"], c["name"], c["opts"], ex, len(c["ops"]), " ".join(op_token(o) for o in c["ops"]))
+    return "%d %s %s %x %s %d %s" % (c["id"], c["arch"], c["name"], c["opts"], ex, len(c["ops"]), " ".join(op_token(o) for o in c["ops"])) + \
+        (" eo=%x" % c["eopts"] if c.get("eopts") else "")
